@@ -8,7 +8,8 @@ LEVEL_NOTE = ("Coq theorem C16_holds (every plan, every group size): from the mo
               "alone - no child exit or reap in between - start every member before it begins to wait. Partial: that spawning does not block on the OS is runtime behaviour. Tied by "
               "real runs in which every member of a group of 2..48 children waits on a file-system barrier until all members have started (30 s dead-man, exit 99): the run must succeed, with and without a log listener attached.")
 RULE = ("group sizes {2,3,8,24,48} (thorough: 2..64) at the first, middle or last position of a 3-layer plan and under a second command; non-trivial = every case (the barrier makes sequential "
-        "execution fail); the same with a `log tail --stdout --stderr` listener attached and drained; distinct by (size, position, commands, listener)")
+        "execution fail); the same with a `log tail --stdout --stderr` listener attached and drained, requested by name with --deps, with all members sharing one executable, behind 300 undefined plan entries, "
+        "and under --fail-on-undefined (which changes nothing when every member defines the command); distinct by (size, position, commands, listener, flags)")
 
 def case(ctx, rng, n, position, two_cmds, undefined_ahead=0, listener=False, named=False, shared_exec=False, flags=()):
     members = ["grp/m%02d" % i for i in range(n)]
